@@ -23,6 +23,7 @@ import (
 	"github.com/taskctl/taskctl/pkg/runner"
 	"github.com/taskctl/taskctl/pkg/scheduler"
 	"github.com/taskctl/taskctl/pkg/task"
+	"github.com/taskctl/taskctl/pkg/variables"
 	"pgregory.net/rapid"
 
 	"verif/harness/drv"
@@ -49,6 +50,7 @@ type Case struct {
 	DelayMs  int    `json:"delay_ms,omitempty"` // extra wait before the cancel
 	Nested   bool   `json:"nested,omitempty"`   // via condition: the stage with the bad condition sits in a pipeline that is itself a stage
 	Stubborn bool   `json:"stubborn,omitempty"` // the long command ignores SIGINT: it dies only after the interpreter's 2 s kill grace
+	Ctx      bool   `json:"ctx,omitempty"`      // the tasks run in an execution context that has before/after commands of its own
 }
 
 func (c Case) canon() string { b, _ := json.Marshal(c); return string(b) }
@@ -98,9 +100,18 @@ func scenario(c Case, dir string, scale int) string {
 		default:
 			tk.Commands = []string{long, fmt.Sprintf("printf 'L:%d\\n' >> %s", i, log)}
 		}
+		if c.Ctx {
+			tk.Context = "cx"
+		}
 		return tk
 	}
-	r, err := runner.NewTaskRunner()
+	var ropts []runner.Opts
+	if c.Ctx {
+		// the context's own commands are commands like any other: none may start once a Cancel call has returned
+		ropts = append(ropts, runner.WithContexts(map[string]*runner.ExecutionContext{"cx": runner.NewExecutionContext(nil, "", variables.NewVariables(), nil, nil,
+			[]string{fmt.Sprintf("printf 'XB\\n' >> %s", log)}, []string{fmt.Sprintf("sleep 0.03; printf 'XA\\n' >> %s", log)})}))
+	}
+	r, err := runner.NewTaskRunner(ropts...)
 	if err != nil {
 		return "NewTaskRunner: " + err.Error()
 	}
@@ -155,12 +166,22 @@ func scenario(c Case, dir string, scale int) string {
 		graph = g
 		sd = scheduler.NewScheduler(r)
 	}
+	// markers in the log when a Cancel call returned (the smallest count over the calls): nothing may be
+	// added afterwards
+	var snapMu sync.Mutex
+	atCancel := -1
 	cancel := func() {
 		if useSched {
 			sd.Cancel()
 		} else {
 			r.Cancel()
 		}
+		n := len(readLines(log))
+		snapMu.Lock()
+		if atCancel < 0 || n < atCancel {
+			atCancel = n
+		}
+		snapMu.Unlock()
 	}
 	// whenever a Cancel call returns, the commands it interrupted must be gone: checked at the return of
 	// every call, also of the one that returns first when two overlap
@@ -308,6 +329,12 @@ func scenario(c Case, dir string, scale int) string {
 	after := readLines(log)
 	if len(after) != len(atReturn) {
 		return fmt.Sprintf("commands were started or continued after cancellation completed: %v (had %d markers)", after[len(atReturn):], len(atReturn))
+	}
+	snapMu.Lock()
+	ac := atCancel
+	snapMu.Unlock()
+	if ac >= 0 && c.Phase != "after-finish" && len(after) > ac {
+		return fmt.Sprintf("commands were started after a Cancel call had returned: %v (the log had %d markers when it returned)", after[ac:], ac)
 	}
 	for _, l := range after {
 		if strings.HasPrefix(l, "E:") || strings.HasPrefix(l, "L:") || (c.Phase == "before-hook" && strings.HasPrefix(l, "C:")) {
@@ -478,7 +505,10 @@ func clip(s string, n int) string {
 
 func record(c Case) {
 	drv.Eval(fmt.Sprintf("in-flight=%d", c.K), fmt.Sprintf("waiting=%d", c.W), "phase="+c.Phase, "via="+c.Via, "cancel="+c.Double)
-	drv.NonTrivial(fmt.Sprintf("%d/%d/%s/%s/%s/%v/%v", c.K, c.W, c.Phase, c.Double, c.Via, c.Stubborn, c.Nested))
+	if c.Ctx {
+		drv.Class("tasks in a context with before/after commands")
+	}
+	drv.NonTrivial(fmt.Sprintf("%d/%d/%s/%s/%s/%v/%v/%v", c.K, c.W, c.Phase, c.Double, c.Via, c.Stubborn, c.Nested, c.Ctx))
 }
 
 func normalise(c Case) Case {
@@ -524,6 +554,7 @@ func genCase(rt *rapid.T) Case {
 		DelayMs:  rapid.SampledFrom([]int{0, 0, 1, 5, 20, 50}).Draw(rt, "delay"),
 		Stubborn: rapid.IntRange(0, 3).Draw(rt, "stubborn") == 0,
 		Nested:   rapid.Bool().Draw(rt, "nested-condition"),
+		Ctx:      rapid.IntRange(0, 2).Draw(rt, "context-hooks") == 0,
 	}
 	return normalise(c)
 }
@@ -582,6 +613,18 @@ func TestMatrix(t *testing.T) {
 				if !seen[c.canon()] {
 					seen[c.canon()] = true
 					cases = append(cases, c)
+				}
+			}
+			for _, ph := range []string{"before-hook", "command", "second-command", "burst"} {
+				for _, via := range []string{"runner", "scheduler"} {
+					if k == 0 {
+						continue
+					}
+					c := normalise(Case{K: k, W: w, Phase: ph, Double: "once", Via: via, BurstM: 40, Ctx: true})
+					if !seen[c.canon()] {
+						seen[c.canon()] = true
+						cases = append(cases, c)
+					}
 				}
 			}
 			for at := 0; at < 4; at++ {
